@@ -69,6 +69,7 @@ func init() {
 			problems = append(problems, conc.DenyStress(*seed, *rounds/4+200)...)
 			problems = append(problems, conc.SharedRemoveStress(*seed, *rounds/10+100)...)
 			problems = append(problems, conc.AtomicityStress(*seed, *rounds/20+150)...)
+			problems = append(problems, conc.DuringSendStress(*seed, *rounds/100+60)...)
 		}
 		if problems == nil {
 			problems = []conc.Problem{}
@@ -105,6 +106,7 @@ func init() {
 		}
 		if !*f8 {
 			results = append(results, conc.GatedStress(*seed, 300*time.Millisecond))
+			results = append(results, conc.GatedBrokerStress(*seed, 400*time.Millisecond))
 		}
 		writeJSON(*out, map[string]interface{}{"results": results})
 		return 0
